@@ -422,8 +422,13 @@ Fixpoint min_reported (tr : list event) : option N :=
 Definition called_last (t : tid) (tr : list event) : bool :=
   match tr with ECall u _ :: _ => Nat.eqb u t | _ => false end.
 
+(** [has_more] answers [No], never [Yes(0)], when nothing remains *)
+Definition yes_zero (r : res) : bool :=
+  match r with RMore (HYes 0) => true | _ => false end.
+
 Definition ev_C11 (e : env) : tid -> res -> list drops -> list event -> bool :=
   fun t r _ tl =>
+    negb (yes_zero r) &&
     match split_call t tl with
     | Some (o, older) =>
         (* quiescent query: nothing else pending when it was called nor when it returned *)
@@ -465,17 +470,42 @@ Definition loop_shape_ok (l : loopk) (r : res) : bool :=
   | _ => false
   end.
 
+(** a loop with a positive chunk size panics only for a reason: its closure was told to panic (the
+    crash argument of the call), or the wrapped iterator panicked; in particular not with "Chunk size
+    must be positive", an arithmetic overflow, a failed assertion or an index out of bounds *)
+Definition loop_panic_ok (cr : option N) (r : res) : bool :=
+  match r with
+  | RPanic PkUser _ => match cr with Some _ => true | None => false end
+  | RPanic PkSource _ => true
+  | RPanic _ _ => false
+  | _ => true
+  end.
+
 Definition ev_C12 : tid -> res -> list drops -> list event -> bool :=
   fun t r _ tl =>
     match split_call t tl with
-    | Some (Loop l c _, _) => if c =? 0 then is_panic r else loop_shape_ok l r
+    | Some (Loop l c cr, _) => if c =? 0 then is_panic r else loop_shape_ok l r && loop_panic_ok cr r
     | _ => true
     end.
 
 Definition chk_C12_shape (tr : list event) : bool := all_rets ev_C12 tr.
 
+(** the wrapped iterator can panic: there is one, and it was told to panic *)
+Definition src_may_panic (e : env) : bool :=
+  match e_kind e, e_crash e with KIter, Some _ => true | _, _ => false end.
+
+(** a loop returns with the panic of the wrapped iterator only when the wrapped iterator can panic *)
+Definition ev_C12_src (e : env) : tid -> res -> list drops -> list event -> bool :=
+  fun t r _ tl =>
+    match split_call t tl, r with
+    | Some (Loop _ _ _, _), RPanic PkSource _ => src_may_panic e
+    | _, _ => true
+    end.
+
+Definition chk_C12_src (e : env) (tr : list event) : bool := all_rets (ev_C12_src e) tr.
+
 Definition chk_C12 (e : env) (tr : list event) : bool :=
-  chk_C12_shape tr && chk_C01 e tr && chk_C02 e tr && chk_C05 e tr.
+  chk_C12_shape tr && chk_C12_src e tr && chk_C01 e tr && chk_C02 e tr && chk_C05 e tr.
 
 (** ** C07 (a): mutual exclusion of the critical sections, read off the label stream (latest first) *)
 
@@ -624,7 +654,7 @@ Definition check_prop (n : N) (e : env) (tr : list event) (ls : list label) : bo
   | 8 => chk_C08 e tr
   | 10 => chk_C10 e tr
   | 11 => chk_C11 e tr
-  | 12 => chk_C12_shape tr && chk_C01_nodup e tr && chk_C02 e tr && chk_C05 e tr
+  | 12 => chk_C12_shape tr && chk_C12_src e tr && chk_C01_nodup e tr && chk_C02 e tr && chk_C05 e tr
           && (if has_skip tr || has_panic tr then true else chk_C01_noloss e tr)
   | 16 => chk_C16 e tr && chk_C02 e tr && chk_C03 e tr && chk_C01_nodup e tr
   | 17 => chk_no_panic tr
